@@ -93,12 +93,73 @@ fn visible_tags(book: &umya::Spreadsheet, twin: Option<&umya::Spreadsheet>) -> (
     (tags, cells, raw)
 }
 
+/// Tags of the text an operation is meant to delete, read through the getters before it runs. Only the
+/// unambiguous part of the semantics is used: overwriting a cell, removing a cell, a band of rows or
+/// columns, or a sheet deletes the text of the cells it targets.
+fn doomed_tags(b: &umya::Spreadsheet, op: &Op) -> BTreeSet<String> {
+    let mut out = BTreeSet::new();
+    let n = b.get_sheet_count();
+    if n == 0 {
+        return out;
+    }
+    let cell_tags = |ws: &umya::Worksheet, pred: &dyn Fn(u32, u32) -> bool, out: &mut BTreeSet<String>| {
+        if !umya::verif_hooks::is_deserialized(ws) {
+            return;
+        }
+        // a tag that also lives outside the targeted cells is not doomed
+        let mut inside = BTreeSet::new();
+        let mut outside = BTreeSet::new();
+        for c in ws.get_cell_collection() {
+            let (col, row) = (*c.get_coordinate().get_col_num(), *c.get_coordinate().get_row_num());
+            if pred(col, row) {
+                tags_in(&c.get_value(), &mut inside);
+            } else {
+                tags_in(&c.get_value(), &mut outside);
+            }
+        }
+        out.extend(inside.difference(&outside).cloned());
+    };
+    let sheets = b.get_sheet_collection_no_check();
+    match op {
+        Op::SetText { sheet, cell, .. } | Op::SetRich { sheet, cell, .. } | Op::SetNum { sheet, cell, .. } | Op::SetBool { sheet, cell, .. } | Op::SetBlank { sheet, cell } | Op::RemoveCell { sheet, cell } => {
+            if let Some((c, r)) = crate::decode::col_row(cell) {
+                cell_tags(&sheets[*sheet % n], &|col, row| col == c && row == r, &mut out);
+            }
+        }
+        Op::SheetRemoveRow { sheet, row, n: cnt } => cell_tags(&sheets[*sheet % n], &|_, r| r >= *row && r < *row + *cnt, &mut out),
+        Op::SheetRemoveCol { sheet, col, n: cnt } => cell_tags(&sheets[*sheet % n], &|c, _| c >= *col && c < *col + *cnt, &mut out),
+        Op::RemoveSheet { sheet } => {
+            if n > 1 {
+                let ws = &sheets[*sheet % n];
+                if umya::verif_hooks::is_deserialized(ws) {
+                    let mut inside = BTreeSet::new();
+                    sheet_tags(ws, &mut inside);
+                    let mut outside = BTreeSet::new();
+                    for (i, o) in sheets.iter().enumerate() {
+                        if i != *sheet % n && umya::verif_hooks::is_deserialized(o) {
+                            sheet_tags(o, &mut outside);
+                        }
+                    }
+                    // other raw sheets cannot share a tag (tags are unique per step and cell)
+                    out.extend(inside.difference(&outside).cloned());
+                }
+            }
+        }
+        _ => {}
+    }
+    out
+}
+
 pub fn execute(case: &Value, _scratch: &str) -> Outcome {
     let mut out = Outcome::default();
     let steps: Vec<Step> = serde_json::from_value(case["steps"].clone()).unwrap_or_default();
     let nsheets = case["sheets"].as_u64().unwrap_or(1).max(1);
     let mut handles: Vec<Option<umya::Spreadsheet>> = Vec::new();
     let mut twins: Vec<Option<umya::Spreadsheet>> = Vec::new();
+    // tags an operation on that handle deleted (overwrite, remove cell/row/column/sheet): history oracle
+    let mut deleted: Vec<BTreeSet<String>> = vec![BTreeSet::new()];
+    // tags contained in the file a handle was loaded from (empty for handles not loaded from a file)
+    let mut loaded: Vec<BTreeSet<String>> = vec![BTreeSet::new()];
     // lineage: parent handle of each handle (for classification only)
     let mut parent: Vec<Option<usize>> = Vec::new();
     let mut b0 = umya::new_file();
@@ -119,8 +180,14 @@ pub fn execute(case: &Value, _scratch: &str) -> Outcome {
             match st {
                 Step::Op { h, op } => {
                     let n = handles.len();
-                    if let Some(b) = handles[*h % n].as_mut() {
+                    let hi = *h % n;
+                    if let Some(b) = handles[hi].as_mut() {
+                        // what the operation is meant to delete, read from the getters before it runs
+                        // (only where the sheet is already materialised: a raw sheet is judged by the
+                        // file-vs-getters oracle alone)
+                        let doomed = doomed_tags(b, op);
                         world::apply(b, op);
+                        deleted[hi].extend(doomed);
                         sig.push('o');
                     }
                 }
@@ -132,6 +199,10 @@ pub fn execute(case: &Value, _scratch: &str) -> Outcome {
                             handles.push(Some(c));
                             let tw = twins[*h % n].clone();
                             twins.push(tw);
+                            let d = deleted[*h % n].clone();
+                            deleted.push(d);
+                            let l = loaded[*h % n].clone();
+                            loaded.push(l);
                             parent.push(Some(*h % n));
                             clones_alive += 1;
                             sig.push('c');
@@ -168,17 +239,28 @@ pub fn execute(case: &Value, _scratch: &str) -> Outcome {
                         saved_after_edit_on_shared = true;
                     }
                     let rawf = if raw > 0 { ">0" } else { "0" };
+                    let mut file_tags: BTreeSet<String> = BTreeSet::new();
+                    if let Ok(files) = decode::read_zip(&bytes) {
+                        for (name, data) in &files {
+                            if name.ends_with(".xml") || name.ends_with(".vml") || name.ends_with(".rels") {
+                                tags_in(&String::from_utf8_lossy(data), &mut file_tags);
+                            }
+                        }
+                    }
                     match decode::decode(&bytes) {
                         Err(e) => out.violate(Verdict::new("C12", "C12:corrupt-file", &[("raw_sheets_at_save", rawf)], format!("step {}: handle {}: {}", k, i, e))),
                         Ok(d) => {
                             // tags found anywhere in the package
-                            let mut found = BTreeSet::new();
-                            if let Ok(files) = decode::read_zip(&bytes) {
-                                for (name, data) in &files {
-                                    if name.ends_with(".xml") || name.ends_with(".vml") || name.ends_with(".rels") {
-                                        tags_in(&String::from_utf8_lossy(data), &mut found);
-                                    }
-                                }
+                            let found = file_tags.clone();
+                            // history oracle: text an operation deleted from this workbook must be gone,
+                            // whatever the getters say
+                            if let Some(t) = found.intersection(&deleted[i]).next() {
+                                out.violate(Verdict::new(
+                                    "C12",
+                                    "C12:leak-deleted",
+                                    &[("raw_sheets_at_save", rawf)],
+                                    format!("step {}: file saved from handle {} contains text tagged ~{}~ that an earlier operation on this workbook overwrote or removed (cell/row/column/sheet)", k, i, t),
+                                ));
                             }
                             let stray: Vec<&String> = found.difference(&expected).collect();
                             if let Some(t) = stray.first() {
@@ -198,7 +280,7 @@ pub fn execute(case: &Value, _scratch: &str) -> Outcome {
                                 out.violate(Verdict::new(
                                     "C12",
                                     class,
-                                    &[("raw_sheets_at_save", rawf), ("where", if where_ == "sharedStrings" { "sharedStrings" } else { "other" })],
+                                    &[("raw_sheets_at_save", rawf), ("where", if where_ == "sharedStrings" { "sharedStrings" } else { "other" }), ("origin", if loaded[i].contains(*t) { "loaded-file" } else { "post-load" })],
                                     format!(
                                         "step {}: file saved from handle {} contains text tagged ~{}~ ({}), which is not reachable from that workbook (written by handle {}{}); {} stray tags",
                                         k,
@@ -254,6 +336,9 @@ pub fn execute(case: &Value, _scratch: &str) -> Outcome {
                                 Ok(nb) => {
                                     handles.push(Some(nb));
                                     twins.push(if *lazy { world::load_mem(&bytes, true).ok() } else { None });
+                                    let d = deleted[i].clone();
+                                    deleted.push(d);
+                                    loaded.push(file_tags.clone());
                                     parent.push(Some(i));
                                 }
                                 Err(e) => out.violate(Verdict::new("C12", "C12:corrupt-file", &[], format!("step {}: reload failed: {}", k, e))),
@@ -292,6 +377,15 @@ pub fn cases(run_seed: u64, tier: &str, _scratch: &str) -> Vec<Value> {
         let w = [10 + sw.below(10) as u32, 2 + sw.below(6) as u32, sw.below(4) as u32, sw.below(2) as u32, 3 + sw.below(5) as u32, sw.below(3) as u32];
         let mut nh = 1usize;
         let mut steps = Vec::new();
+        if sw.chance(1, 5) {
+            // directed prefix: content, lazy reload into handle 1, clone of it into handle 2
+            for k in 0..(2 + wl.usize(4)) {
+                steps.push(Step::Op { h: 0, op: Op::SetText { sheet: wl.usize(sheets), cell: world::gen_cell(&mut wl, ncells), v: format!("~h0s{}~p", 900 + k) } });
+            }
+            steps.push(Step::Reload { h: 0, lazy: true });
+            steps.push(Step::Clone { h: 1 });
+            nh = 3;
+        }
         for k in 0..len {
             let h = wl.usize(nh);
             let tag = format!("~h{}s{}~", h, k);
@@ -312,8 +406,8 @@ pub fn cases(run_seed: u64, tier: &str, _scratch: &str) -> Vec<Value> {
                     let cell = world::gen_cell(&mut wl, ncells);
                     let op = match wl.usize(6) {
                         0 => Op::SetBlank { sheet, cell },
-                        1 => Op::SheetRemoveRow { sheet, row: 1 + wl.below(3) as u32, n: 1 },
-                        2 => Op::SheetRemoveCol { sheet, col: 1 + wl.below(3) as u32, n: 1 },
+                        1 => Op::SheetRemoveRow { sheet, row: 1 + wl.below(8) as u32, n: 1 + wl.below(3) as u32 },
+                        2 => Op::SheetRemoveCol { sheet, col: 1 + wl.below(5) as u32, n: 1 + wl.below(3) as u32 },
                         3 => Op::RemoveSheet { sheet },
                         _ => Op::RemoveCell { sheet, cell },
                     };
